@@ -50,6 +50,7 @@ func docTable() (map[string]int, map[string]bool) {
 }
 
 func suiteC14(r *Run) {
+	huSuite(r, "C14")
 	r.Rule = "unit: every gRPC code 0..16 plus out-of-range samples through httpStatusFromCode; every integer status -10..1010 plus extremes through codeFromHttpStatus; status-header strings through statFromResponse. e2e: handler returns each code through a real httpgrpc.Server + Channel (default / custom / empty renderer; live and cancelled request context). A case is non-trivial when it reaches a table row, range boundary, the 499 rule or a header-parsing branch; distinct by (op,args)."
 	r.Assumptions = append(r.Assumptions, "net/http status line and header canonicalisation (in-memory transport mirrors net/http's Response fields)")
 	rng := r.Rng
